@@ -72,6 +72,15 @@ def euler_records(rnd, tier):
                     model.initdisc(noz_mesh)
                 uu = u
                 prim = [np.full(n, rho), np.full(n, u), np.full(n, p)]
+            # one case in three states the uniform state through the field constructor's uniform-value entry point (scalars, the
+            # velocity of the 2D model as a plain pair), on a real mesh of n cells -- a single cell included
+            if c % 3 == 2:
+                if which == "euler2d":
+                    mesh_u = fd.mesh2d.mesh2d(n, 1, 1.0, 1.0) if c % 2 else fd.mesh2d.mesh2d(1, n, 1.0, 1.0)
+                    fu = fd.field.fdata(model, mesh_u, [float(rho), [float(uu[0]), float(uu[1])], float(p)])
+                else:
+                    fu = fd.field.fdata(model, noz_mesh if noz_mesh is not None else fd.uniform(n), [float(rho), float(u), float(p)])
+                prim = [np.array(d, dtype=float) for d in fu.data]
             q = model.prim2cons([np.array(x, dtype=float) for x in prim])
             # round trip both ways
             with np.errstate(all="ignore"):
